@@ -696,7 +696,7 @@ def main(ctx):
     jobs = [(shard_bfs, "bfs-canonical-states", ctx.pick(6, 8))]
     # (2) unmerged sequences
     evs = events()
-    length = ctx.pick(3, 5)
+    length = ctx.pick(4, 5)
     for ch in common.chunks(evs, 2 * ctx.jobs):
         jobs.append((shard_sequences, "all-sequences-unmerged", (ch, length)))
     # (3) arithmetic
